@@ -119,6 +119,22 @@ def main(argv=None):
                 r.status, r.reason = "undecided", "verification timed out"
                 results.append(r)
 
+    # ---- retry: an 'unknown' may be an artefact of solver budgets under load (16 workers + CLI solvers);
+    # contracts with unknown obligations are verified once more, one at a time, with a doubled budget
+    retry = [k for k, r in enumerate(results) if any(o["status"] == "unknown" for o in r.obligations)]
+    if retry and len(retry) <= 12:
+        with mp.Pool(2) as pool:
+            redo = [(k, pool.apply_async(_verify_one, ((mine[k][0], repo, timeout_ms * 2),))) for k in retry]
+            for k, a in redo:
+                try:
+                    r2 = a.get(timeout=1200)
+                except mp.TimeoutError:
+                    continue
+                bad_old = sum(1 for o in results[k].obligations if o["status"] != "unsat")
+                bad_new = sum(1 for o in r2.obligations if o["status"] != "unsat")
+                if r2.status == "ok" and bad_new < bad_old:
+                    results[k] = r2
+
     # ---- decide ----------------------------------------------------------------------------
     known = [k for k in known_findings() if k.get("property") == prop and k.get("status") == "open"]
     obligations = discharged = 0
